@@ -1642,6 +1642,58 @@ def _fold_adjacent_displays(fn):
     fn.body = scan(fn.body)
 
 
+def _local_annotations_to_assignments(tree):
+    """x: T = v  ->  x = v   for plain local names inside functions (the annotation is kept as the assignment's type comment, where
+    the truthiness typing still reads it).  Class-level fields and attributes keep their annotated form."""
+    for fn in ast.walk(tree):
+        if not isinstance(fn, FDEFS):
+            continue
+
+        def scan(stmts):
+            for k, st in enumerate(stmts):
+                for field in ("body", "orelse", "finalbody"):
+                    sub = getattr(st, field, None)
+                    if isinstance(sub, list) and sub and isinstance(sub[0], ast.stmt) and not isinstance(st, FDEFS + (ast.ClassDef,)):
+                        scan(sub)
+                if isinstance(st, ast.Try):
+                    for hd in st.handlers:
+                        scan(hd.body)
+                if isinstance(st, ast.AnnAssign) and isinstance(st.target, ast.Name) and st.value is not None and st.simple:
+                    stmts[k] = ast.copy_location(ast.Assign(targets=[st.target], value=st.value, type_comment=ast.unparse(st.annotation), lineno=st.lineno), st)
+        scan(fn.body)
+
+
+def _drop_inlined_helpers(tree, inl, shared: frozenset):
+    """a private helper that is mentioned nowhere any more (every call was inlined, no other file mentions the name) is dead code:
+    its definition is removed, so that no rule judges half of a split function on its own"""
+    if not inl.helpers:
+        return
+    changed = True
+    while changed:
+        changed = False
+        for (owner, name), h in list(inl.helpers.items()):
+            if name in shared:
+                continue
+            mentioned = False
+            for n in ast.walk(tree):
+                if n is h.fn:
+                    continue
+                if (isinstance(n, ast.Name) and n.id == name) or (isinstance(n, ast.Attribute) and n.attr == name) or (isinstance(n, ast.Constant) and n.value == name):
+                    # mentions inside the helper's own body do not count
+                    if not any(x is n for x in ast.walk(h.fn)):
+                        mentioned = True
+                        break
+            if mentioned:
+                continue
+            holder = tree.body if owner is None else next((c.body for c in tree.body if isinstance(c, ast.ClassDef) and c.name == owner), None)
+            if holder is not None and h.fn in holder:
+                holder.remove(h.fn)
+                if not holder:
+                    holder.append(ast.Pass())
+                del inl.helpers[(owner, name)]
+                changed = True
+
+
 def normalise_module(module_name: str, tree: ast.Module, multiply_defined: frozenset = frozenset()) -> ast.Module:
     mt: Dict[str, ast.Tuple] = {}
     counts: Dict[str, int] = {}
@@ -1651,9 +1703,11 @@ def normalise_module(module_name: str, tree: ast.Module, multiply_defined: froze
             if isinstance(st.value, ast.Tuple) and st.value.elts and all(isinstance(e, (ast.Name, ast.Attribute)) for e in st.value.elts):
                 mt[st.targets[0].id] = st.value
     mt = {k: v for k, v in mt.items() if counts.get(k) == 1}
+    _local_annotations_to_assignments(tree)
     tree = _Isinstance(mt).visit(tree)
     _swap_negative_ifs(tree)
     inl = Inliner(module_name, tree, multiply_defined)
+    had_helpers = bool(inl.helpers)
     if inl.helpers:
         tree.body = _comprehension_to_loop(tree.body, inl, None)
         # flatten helper bodies first so that their guard clauses are in canonical form
@@ -1667,6 +1721,7 @@ def normalise_module(module_name: str, tree: ast.Module, multiply_defined: froze
             if isinstance(st, FDEFS):
                 inl.inline_expressions(st, None)
         tree.body = inl.inline_statements(tree.body, None)
+        _drop_inlined_helpers(tree, inl, multiply_defined)
         tree.body = _merge_search_result(tree.body)
         _swap_negative_ifs(tree)
     records = _private_records(tree, set(known_names().get(module_name, []))) if known_names() else {}
@@ -1675,7 +1730,7 @@ def normalise_module(module_name: str, tree: ast.Module, multiply_defined: froze
             if isinstance(n, FDEFS):
                 _fold_private_records(n, records)
     tree.body = _split_tuple_assigns(tree.body)
-    if inl.helpers or records:
+    if had_helpers or records:
         for n in ast.walk(tree):
             if isinstance(n, FDEFS):
                 _eliminate_aliases(n)
